@@ -410,6 +410,12 @@ class Parser:
             if self.at("{"):
                 body = ("block", self.block())
                 self.eat(",")
+            elif self.at("return"):
+                line = self.cur.line
+                self.i += 1
+                val = None if (self.at(",") or self.at("}")) else self.expr()
+                body = ("block", [("return", val, line)])
+                self.eat(",")
             else:
                 body = self.expr()
                 if not self.eat(","):
@@ -700,6 +706,8 @@ class Emitter:
                 return ("o", self.conv_ty(ty[2][0]))
             if n == "Vec" and len(ty) > 2 and ty[2]:
                 return ("l", self.conv_ty(ty[2][0]))
+            if n == "Result":
+                return "r"          # Result<(), E> of a &mut self method: modelled as a Status beside the new self
             if n in self.structs:
                 return ("s", n)
             return ("x", n)
@@ -716,6 +724,10 @@ class Emitter:
             return "Bool"
         if t == "u":
             return "Unit"
+        if t == "r":
+            return "Status"
+        if t == "res":
+            return "InitRes"
         if t is None:
             return "_"
         if t[0] == "s":
@@ -724,11 +736,66 @@ class Emitter:
             return f"(Option {self.lean_ty(t[1])})"
         if t[0] == "l":
             return f"(List {self.lean_ty(t[1])})"
+        if t[0] == "i":
+            return t[1]
         if t[0] == "t":
             if not t[1]:
                 return "Unit"
             return "(" + " × ".join(self.lean_ty(x) for x in t[1]) + ")"
         raise Untranslatable(f"{self.fname}: type {t} outside subset")
+
+    # ---- calls on interface objects (hand-written abstract Lean structures standing for sub-strategies)
+    def iface_call(self, recv_t, name, args, env):
+        """-> (lean function, kept argument texts, return type, pure?)"""
+        table = getattr(self, "iface", {}).get(recv_t[1], {})
+        if name not in table:
+            raise Untranslatable(f"{self.fname}: method .{name} is not in the interface table of {recv_t[1]}")
+        fn_, keep, ret, pure = table[name]
+        kept = [self.expr(args[k], env)[0] for k in keep]
+        return fn_, kept, ret, pure
+
+    def has_effect(self, e, env):
+        """does the expression contain a mutating interface call?"""
+        if not isinstance(e, tuple):
+            return False
+        if e and e[0] == "mcall":
+            try:
+                _, rt = self.expr(e[1], env)
+            except Untranslatable:
+                rt = None
+            if rt and rt[0] == "i":
+                table = getattr(self, "iface", {}).get(rt[1], {})
+                if e[2] in table and not table[e[2]][3]:
+                    return True
+        for x in e:
+            if isinstance(x, tuple) and self.has_effect(x, env):
+                return True
+            if isinstance(x, list):
+                for y in x:
+                    if isinstance(y, tuple) and self.has_effect(y, env):
+                        return True
+        return False
+
+    def effect_call(self, e, env, pad, lines):
+        """emit a mutating interface call `recv.m(args)`; returns (text of its value or None, type)"""
+        rs, rt = self.expr(e[1], env)
+        fn_, kept, ret, pure = self.iface_call(rt, e[2], e[3], env)
+        call = " ".join([fn_, rs, "orc"] + kept)
+        if e[1][0] == "field" and e[1][1][0] == "path":
+            base, _ = self.expr(e[1][1], env)
+            upd = lambda v: f"{pad}{base} := {{ {base} with {lname(e[1][2])} := {v} }}"
+        elif e[1][0] == "path":
+            upd = lambda v: f"{pad}{rs} := {v}"
+        else:
+            self.bad(0, "receiver of interface call")
+        if ret is None:
+            lines.append(upd(call))
+            return None, None
+        self.tmp = getattr(self, "tmp", 0) + 1
+        v, o = f"r{self.tmp}", f"o{self.tmp}"
+        lines.append(f"{pad}let ({v}, {o}) := {call}")
+        lines.append(upd(o))
+        return v, ret
 
     # ---- expressions: return (lean_text, type)
     def flit(self, text):
@@ -837,6 +904,11 @@ class Emitter:
                     return f"{lname(recv[1][0])}_{name}", ext[1][name]
                 raise Untranslatable(f"{self.fname}: method .{name} on external object {recv[1][0]}")
             rs, rt = self.expr(recv, env)
+            if rt and rt[0] == "i":
+                fn_, kept, ret, pure = self.iface_call(rt, name, args, env)
+                if not pure:
+                    raise Untranslatable(f"{self.fname}: mutating interface call .{name} in expression position")
+                return "(" + " ".join([fn_, rs] + kept) + ")", ret
             if rt == "f" and name in F64_METHODS:
                 fn_, nargs = F64_METHODS[name]
                 if len(args) != nargs:
@@ -878,6 +950,10 @@ class Emitter:
                     ln, ret, sk = self.fnsigs[key]
                     argss = [self.expr(a, env)[0] for a in e[2]]
                     return "(" + " ".join([ln] + argss) + ")", ret
+                if p[-1] == "Ok" and len(e[2]) == 1 and e[2][0] == ("tuple", []):
+                    return "Status.ok", "r"
+                if p[-1] == "Err" and len(e[2]) == 1:
+                    return "Status.err", "r"
                 if p[-1] == "Some" and len(e[2]) == 1:
                     s, t = self.expr(e[2][0], env)
                     return f"(some {s})", ("o", t)
@@ -941,6 +1017,26 @@ class Emitter:
                 pat = st[1]
                 if pat[0] != "pvar":
                     self.bad(st[5], "destructuring let")
+                if self.mentions_dropped(st[2], env):
+                    env[pat[1]] = ("dropped",)
+                    lines.append(f"{pad}-- let {pat[1]} = ..  [value of a parameter that is not modelled]")
+                    continue
+                if st[2][0] == "if" and self.has_effect(st[2], env):
+                    # let x = if c { ..effects..; v1 } else { v2 }   ->   let mut x := default; if c then ..; x := v1 else x := v2
+                    e = st[2]
+                    name = pat[1]
+                    c, _ = self.expr(e[1], env)
+                    vt = self.tail_type(e[3], env) or self.tail_type(e[2], env)
+                    dflt = {"b": "false", "n": "(0 : Nat)"}.get(vt)
+                    if dflt is None or e[3] is None:
+                        self.bad(st[5], "effectful if-expression of this type")
+                    env[name] = vt
+                    lines.append(f"{pad}let mut {lname(name)} := {dflt}")
+                    lines.append(f"{pad}if {c} then")
+                    lines += self.branch_assign(e[2], env, ind + 1, lname(name), ret_self, ret_ty)
+                    lines.append(f"{pad}else")
+                    lines += self.branch_assign(e[3], env, ind + 1, lname(name), ret_self, ret_ty)
+                    continue
                 s, t = self.expr(st[2], env)
                 name = pat[1]
                 env[name] = t
@@ -1008,6 +1104,17 @@ class Emitter:
                     else:
                         lines.append(pad + "    pure ()")
                     continue
+                if e[0] == "match" and self.has_effect(e[1], env) and e[1][0] == "mcall":
+                    v, vt = self.effect_call(e[1], env, pad, lines)
+                    lines.append(f"{pad}match {v} with")
+                    for (pat, body) in e[2]:
+                        ps, penv = self.pat(pat, vt)
+                        lines.append(f"{pad}| {ps} =>")
+                        benv = dict_passthrough(env)
+                        benv.update(penv)
+                        bst = body[1] if body[0] == "block" else [("exprstmt", body, st[2])]
+                        lines += self.stmts(bst, benv, ind + 2, ret_self, ret_ty, tail=False) or [pad + "    pure ()"]
+                    continue
                 if e[0] == "match":
                     sc, sct = self.expr(e[1], env)
                     lines.append(f"{pad}match {sc} with")
@@ -1030,6 +1137,11 @@ class Emitter:
                 if e[0] == "mcall":
                     # &mut method call on a local/self struct:  x.m(args);
                     rs, rt = self.expr(e[1], env)
+                    if rt and rt[0] == "i":
+                        table = getattr(self, "iface", {}).get(rt[1], {})
+                        if e[2] in table and not table[e[2]][3]:
+                            self.effect_call(e, env, pad, lines)
+                            continue
                     if rt and rt[0] == "l" and e[2] == "push" and len(e[3]) == 1:
                         a, _ = self.expr(e[3][0], env)
                         if e[1][0] == "path":
@@ -1060,7 +1172,75 @@ class Emitter:
             self.bad(0, f"statement {k}")
         return lines
 
+    def mentions_dropped(self, e, env):
+        if not isinstance(e, tuple):
+            return False
+        if e and e[0] == "path" and len(e[1]) == 1 and (e[1][0] in getattr(self, "dropped_params", ()) or env.get(e[1][0]) == ("dropped",)):
+            return True
+        if e and e[0] == "mcall" and not self.mentions_dropped(e[1], env):
+            try:
+                _, rt = self.expr(e[1], env)
+            except Untranslatable:
+                rt = None
+            if rt and rt[0] == "i":
+                table = getattr(self, "iface", {}).get(rt[1], {})
+                if e[2] in table:
+                    return any(self.mentions_dropped(e[3][k], env) for k in table[e[2]][1])
+        for x in e:
+            if isinstance(x, tuple) and self.mentions_dropped(x, env):
+                return True
+            if isinstance(x, list) and any(isinstance(y, tuple) and self.mentions_dropped(y, env) for y in x):
+                return True
+        return False
+
+    def tail_type(self, stmts, env):
+        if not stmts:
+            return None
+        last = stmts[-1]
+        if last[0] != "expr":
+            return None
+        e = last[1]
+        if e[0] == "mcall":
+            try:
+                _, rt = self.expr(e[1], env)
+            except Untranslatable:
+                return None
+            if rt and rt[0] == "i":
+                return getattr(self, "iface", {}).get(rt[1], {}).get(e[2], (None, None, None, None))[2]
+        try:
+            return self.expr(e, env)[1]
+        except Untranslatable:
+            return None
+
+    def branch_assign(self, stmts, env, ind, target, ret_self, ret_ty):
+        """a branch of an effectful if-expression: statements, then `target := tail value`"""
+        pad = "  " * ind
+        benv = dict_passthrough(env)
+        lines = self.stmts(stmts[:-1], benv, ind, ret_self, ret_ty, tail=False)
+        last = stmts[-1]
+        if last[0] != "expr":
+            self.bad(0, "branch of an if-expression without tail value")
+        e = last[1]
+        if e[0] == "mcall" and self.has_effect(e, benv):
+            v, _ = self.effect_call(e, benv, pad, lines)
+            lines.append(f"{pad}{target} := {v}")
+        else:
+            v, _ = self.expr(e, benv)
+            lines.append(f"{pad}{target} := {v}")
+        return lines
+
     def pat(self, pat, sct):
+        if sct == "res":
+            # Result<(), NutsError> of the step-size search
+            if pat[0] == "pctor" and pat[1][-1] == "Ok":
+                return ".ok", {}
+            if pat[0] == "pctor" and pat[1][-1] == "Err" and len(pat[2]) == 1:
+                sub = pat[2][0]
+                if sub[0] == "pctor" and sub[1][-1] == "BadInitGrad":
+                    return ".badInitGrad", {}
+                if sub[0] in ("pvar", "pwild"):
+                    return ".other", ({sub[1]: ("dropped",)} if sub[0] == "pvar" else {})
+            raise Untranslatable(f"{self.fname}: pattern {pat} on a search result")
         if pat[0] == "pwild":
             return "_", {}
         if pat[0] == "pvar":
@@ -1090,6 +1270,10 @@ class Emitter:
         if fn["self"]:
             env["self"] = ("s", type_name)
             params.append(f"(self : {type_name} α)")
+        self.dropped_params = {pn for (pn, _) in fn["params"] if pn in overrides and overrides[pn] is None}
+        self.tmp = 0
+        if "__oracle__" in overrides:
+            params.append(f"(orc : {overrides['__oracle__']})")
         for (pn, pty) in fn["params"]:
             if pn in overrides:
                 t = overrides[pn]
@@ -1143,6 +1327,13 @@ def gen_module(repo, spec, out_path, header):
     out = [header, "", "namespace NutsModel.Gen", "open NutsModel", "", SCALAR_CTX, ""]
     em = Emitter(structs, fnsigs, "")
     for item in spec:
+        if item[0] == "iface":
+            em.iface = item[1]
+            continue
+        if item[0] == "import":
+            out[0] = out[0] + "\nimport " + item[1]
+            out.insert(3, "open " + item[2]) if len(item) > 2 else None
+            continue
         if item[0] == "struct":
             rel, name = item[1], item[2]
             drop = set((item[3] or {}).get("drop", [])) if len(item) > 3 else set()
@@ -1155,10 +1346,11 @@ def gen_module(repo, spec, out_path, header):
             em.self_name = name
             fields = parse_struct_fields(body, rel, line)
             fl = []
+            ifields = (item[3] or {}).get("iface", {}) if len(item) > 3 else {}
             for (fn_, fty, fattrs) in fields:
                 if fn_ in drop:
                     continue            # field not modelled (listed in the module spec)
-                t = em.conv_ty(fty)
+                t = ("i", ifields[fn_]) if fn_ in ifields else em.conv_ty(fty)
                 fl.append((fn_, t))
             missing = drop - {fn_ for (fn_, _, _) in fields}
             if missing:
@@ -1229,6 +1421,25 @@ MODULES = {
     ],
 }
 
+
+MODULES["Adapt"] = [
+    # C06 / C09: the warmup schedule `GlobalStrategy::adapt`.  The two sub-strategies are interface objects (hand-written abstract Lean
+    # structures in Model/AdaptIface.lean): (lean function, indices of the arguments that are kept, return type, pure?)
+    ("import", "NutsModel.Model.AdaptIface", "NutsModel.Model"),
+    ("iface", {
+        "SSI": {"update": ("SSI.update", [], None, False), "update_stepsize": ("SSI.update_stepsize", [2], None, False),
+                "update_estimator_late": ("SSI.update_estimator_late", [], None, False),
+                "update_estimator_early": ("SSI.update_estimator_early", [], None, False),
+                "init": ("SSI.init", [], "res", False)},
+        "MMI": {"background_count": ("MMI.background_count", [], "n", True),
+                "update_estimators": ("MMI.update_estimators", [], None, False),
+                "switch": ("MMI.switch", [], None, False), "adapt": ("MMI.adapt", [], "b", False)},
+    }),
+    ("struct", "src/adapt_strategy.rs", "EuclideanAdaptOptions", {"drop": ["step_size_settings", "mass_matrix_options"]}),
+    ("struct", "src/adapt_strategy.rs", "GlobalStrategy", {"iface": {"step_size": "SSI", "mass_matrix_adapt": "MMI"}}),
+    ("fn", "src/adapt_strategy.rs", "GlobalStrategy", "adapt", "GlobalStrategy.adapt", "AdaptStrategy",
+     {"__oracle__": "AdaptOracle", "math": None, "options": None, "hamiltonian": None, "collector": None, "state": None, "rng": None}),
+]
 
 MODULES["Progress"] = [
     # C11: the per-chain progress counters (`runtime: Duration` is not modelled)
